@@ -36,4 +36,167 @@ def observe(sc, add, build, make_point, oracle_outcome, oracle_partial, point, x
             return
         add(f"e.{method}() = {out}; its value at the point vs the input's", lambda: out.at(make_point(point)), want)
         return
+    if kind in ("eq_hash", "wrapper_eq_hash", "point_eq_hash"):
+        a, b = decode(sc["a"], build, make_point), decode(sc["b"], build, make_point)
+        want_eq = oracle_equal(sc["a"], sc["b"])
+        add(f"(a == b) is {want_eq}  [a={a!r}, b={b!r}]", lambda: 1.0 if ((a == b) is want_eq) else 0.0, ("value", 1.0))
+        if want_eq:
+            add("equal objects have equal hashes", lambda: 1.0 if hash(a) == hash(b) else 0.0, ("value", 1.0))
+        return
+    if kind == "value_repr":
+        a = decode(sc["a"], build, make_point)
+        for fn in (repr, str):
+            def thunk(fn=fn):
+                back = eval(fn(a), public_names())
+                return 1.0 if (back == a and type(back) is type(a)) else 0.0
+            add(f"eval({fn.__name__}(o)) == o   [{fn(a)}]", thunk, ("value", 1.0))
+        return
+    if kind == "constructor":
+        import smoothmath.expression as ex
+        cls = getattr(ex, sc["cls"])
+        args = [decode(v, build, make_point) for v in sc["args"]]
+        want = oracle_wf(sc["cls"], sc["args"])
+        def thunk():
+            try:
+                o = cls(*args)
+            except Exception:
+                return 0.0
+            return 1.0
+        add(f"{sc['cls']}({', '.join(map(repr, args))}) accepted iff well-formed (well-formed={want})", thunk, ("value", 1.0 if want else 0.0))
+        return
+    if kind == "operator":
+        import operator as op
+        fn = {"__neg__": lambda a, b: -a, "__add__": op.add, "__sub__": op.sub, "__mul__": op.mul,
+              "__truediv__": op.truediv, "__pow__": op.pow}[sc["op"]]
+        a, b = decode(sc["a"], build, make_point), decode(sc["b"], build, make_point) if sc.get("b") is not None else None
+        want = oracle_operator(sc["op"], sc["a"], sc.get("b"))
+        def thunk():
+            try:
+                r = fn(a, b)
+            except Exception:
+                return "rejected"
+            return repr(r)
+        real = thunk()
+        add(f"{sc['op']} on a={a!r}, b={b!r}: got {real}, expected {want}", lambda: 1.0 if real == want else 0.0, ("value", 1.0))
+        return
     raise KeyError(f"unknown replay kind {kind}")
+
+
+class Foreign:
+    def __repr__(self):
+        return "Foreign()"
+
+
+def decode(v, build, make_point):
+    import smoothmath as sm
+    if v is None:
+        return None
+    if "tree" in v:
+        return build(v["tree"])
+    if "foreign" in v:
+        return Foreign()
+    if "num" in v:
+        from pyvc.replaylib import num
+        return num(v["num"])
+    if "str" in v:
+        return v["str"]
+    if "none" in v:
+        return None
+    if "point" in v:
+        return make_point(v["point"])
+    if "wrapper" in v:
+        w = v["wrapper"]
+        e = build(v["e"]["tree"])
+        if w == "Partial":
+            return sm.Partial(e, v["name"])
+        if w == "Derivative":
+            return sm.Derivative(e)
+        if w == "Differential":
+            return sm.Differential(e)
+        return sm.LocatedDifferential(e, make_point(v["pt"]))
+    raise KeyError(v)
+
+
+def tree_equal(a, b):
+    from pyvc.replaylib import num
+    if a[0] != b[0] or len(a) != len(b):
+        return False
+    for x, y in zip(a[1:], b[1:]):
+        if isinstance(x, list) and x and isinstance(x[0], str) and x[0][:1].isupper():
+            if not (isinstance(y, list) and tree_equal(x, y)):
+                return False
+        elif isinstance(x, str) or isinstance(y, str):
+            if x != y:
+                return False
+        else:
+            if num(x) != num(y):
+                return False
+    return True
+
+
+def oracle_equal(a, b):
+    from pyvc.replaylib import num
+    if "tree" in a and "tree" in b:
+        return tree_equal(a["tree"], b["tree"])
+    if "point" in a and "point" in b:
+        pa = {k: num(v) for k, v in a["point"].items()}
+        pb = {k: num(v) for k, v in b["point"].items()}
+        return pa == pb
+    if "wrapper" in a and "wrapper" in b:
+        if a["wrapper"] != b["wrapper"]:
+            return False
+        ok = tree_equal(a["e"]["tree"], b["e"]["tree"])
+        if a["wrapper"] == "Partial":
+            ok = ok and a["name"] == b["name"]
+        if a["wrapper"] == "LocatedDifferential":
+            ok = ok and oracle_equal({"point": a["pt"]}, {"point": b["pt"]})
+        return ok
+    return False
+
+
+def oracle_wf(cls, args):
+    from pyvc.replaylib import num
+    import re
+    is_expr = lambda v: "tree" in v
+    def pos_int(v):
+        if "num" not in v:
+            return False
+        n = num(v["num"])
+        return (isinstance(n, int) or float(n).is_integer()) and n >= 1
+    if cls == "Constant":
+        return True
+    if cls == "Variable":
+        return "str" in args[0] and bool(args[0]["str"]) and re.match(r"\A\w*\Z", args[0]["str"]) is not None
+    if cls in ("Add", "Multiply"):
+        return all(is_expr(a) for a in args)
+    if cls in ("Minus", "Divide", "Power"):
+        return len(args) == 2 and is_expr(args[0]) and is_expr(args[1])
+    if not args or not is_expr(args[0]):
+        return False
+    if cls in ("NthPower", "NthRoot"):
+        return len(args) == 2 and pos_int(args[1])
+    if cls in ("Exponential", "Logarithm"):
+        if len(args) == 1:
+            return True
+        if "num" not in args[1]:
+            return False
+        b = num(args[1]["num"])
+        return b > 0 and (cls == "Exponential" or b != 1)
+    return len(args) == 1
+
+
+def oracle_operator(op, a, b):
+    from pyvc.replaylib import build, num
+    import smoothmath.expression as ex
+    A = build(a["tree"])
+    if op == "__neg__":
+        return repr(ex.Negation(A))
+    if b is None or "tree" not in b:
+        if op == "__pow__" and b is not None and "num" in b:
+            n = num(b["num"])
+            if (isinstance(n, int) or float(n).is_integer()) and n >= 1:
+                return repr(ex.NthPower(A, int(n)))
+        return "rejected"
+    B = build(b["tree"])
+    cls = {"__add__": ex.Add, "__sub__": ex.Minus, "__mul__": ex.Multiply, "__truediv__": ex.Divide, "__pow__": ex.Power}[op]
+    return repr(cls(A, B))
